@@ -125,14 +125,29 @@ func (p *Proposal) PendingMessage() *PendingMessage {
 }
 
 func (p *Proposal) Message() (*Message, error) {
-	buf := bytes.NewBuffer(p.Data())
+	data, err := p.data()
+	if err != nil {
+		return nil, fmt.Errorf("Unable to decompress message: %w", err)
+	}
 	m := new(Message)
-	err := m.ReadFrom(buf)
+	err = m.ReadFrom(bytes.NewBuffer(data))
 	return m, err
 }
 
 // Data returns the decompressed raw message
+//
+// Data panics if the compressed data is corrupt.
 func (p *Proposal) Data() []byte {
+	data, err := p.data()
+	if err != nil {
+		panic(err)
+	}
+	return data
+}
+
+// data returns the decompressed raw message, or an error if the compressed data
+// could not be decoded or failed the decompressor's integrity check (size and checksum).
+func (p *Proposal) data() ([]byte, error) {
 	var r io.ReadCloser
 	var err error
 
@@ -144,15 +159,21 @@ func (p *Proposal) Data() []byte {
 	}
 
 	if err != nil {
-		panic(err) //TODO: Should return error
+		return nil, err
 	}
 
 	var buf bytes.Buffer
 	if _, err := io.Copy(&buf, r); err != nil {
-		panic(err) //TODO
+		r.Close()
+		return nil, err
 	}
 
-	return buf.Bytes()
+	// The integrity of the data is verified on Close.
+	if err := r.Close(); err != nil {
+		return nil, err
+	}
+
+	return buf.Bytes(), nil
 }
 
 func parseProposal(line string, prop *Proposal) (err error) {
